@@ -16,7 +16,7 @@ PROP = dict(
         H(NP, "c32", "c32_ts_sub_add", "timestamp difference is the shortest signed difference across eras and adds back"),
         H(NP, "c32", "c32_ts_add_dur", "timestamp +/- duration wraps modulo 2^64"),
         H(NP, "c32", "c32_ts_bits_truncate", "timestamp wire round trip, truncation"),
-        H(NP, "c32", "c32_ts_ctor", "seconds/nanos constructor (division-free characterisation)"),
+        H(NP, "c32", "c32_ts_ctor", "seconds/nanos constructor (division-free characterisation)", tier="thorough", timeout_thorough=2400),
         H(NP, "c32", "c32_dur_add_sub", "duration add/sub saturate (i128 reference)"),
         H(NP, "c32", "c32_dur_neg_abs", "negation/abs/abs_diff saturate and never panic"),
     ] + [H(NP, "c32", "c32_dur_scale_" + t, "duration * and / %s constants (0, +-1, 2, MIN) saturate, never panic" % t) for t in _quick_scale] + [
